@@ -35,8 +35,8 @@ func H264Size(r *fw.Rand, mtu int) int {
 	if s < 2 {
 		s = 2
 	}
-	if s > 60000 {
-		s = 60000
+	if s > 140000 {
+		s = 140000
 	}
 	return s
 }
